@@ -113,7 +113,7 @@ def build(flavour, universes, jobs=16, quiet=False, extra_flags=(), tag=""):
     main_o = os.path.join(bdir, "main.o")
     objs.append(main_o)
     if not os.path.exists(main_o):
-        todo.append((common + ["-c", os.path.join(SIM, "main.cpp"), "-o", main_o],
+        todo.append((common + ["-c", os.path.join(SIM, "main.cpp"), "-o", main_o + ".tmp"],
                      os.path.join(bdir, "main.log"), main_o))
     for u in universes:
         src = os.path.join(bdir, "u_%s.cpp" % u["name"])
@@ -130,11 +130,15 @@ def build(flavour, universes, jobs=16, quiet=False, extra_flags=(), tag=""):
               flush=True)
 
     def work(item):
+        # concurrent checks may build the same key: every process writes its own temporary and
+        # renames it into place (rename is atomic; the last writer wins with identical content)
         cmd, log, obj = item
-        out = obj if obj.endswith("main.o") else obj + ".tmp"
-        cmd = [c if c != obj + ".tmp" else out for c in cmd]
+        out = "%s.tmp.%d" % (obj, os.getpid())
+        cmd = [c if c not in (obj + ".tmp", obj) or c == cmd[0] else out for c in cmd]
+        if os.path.exists(obj):
+            return 0, "", obj
         rc, text = _run(cmd, log)
-        if rc == 0 and out != obj:
+        if rc == 0:
             os.replace(out, obj)
         return rc, text, obj
 
@@ -151,11 +155,11 @@ def build(flavour, universes, jobs=16, quiet=False, extra_flags=(), tag=""):
     if todo or not os.path.exists(binary):
         link = [cxx] + [f for f in flags if f.startswith("-fsanitize") or f.startswith("-fno-sanitize")
                         or f.startswith("-fprofile") or f.startswith("-fcoverage")] \
-            + objs + ["-o", binary + ".tmp"]
+            + objs + ["-o", "%s.tmp.%d" % (binary, os.getpid())]
         rc, text = _run(link, os.path.join(bdir, "link.log"))
         if rc != 0:
             raise BuildError("link failed", text)
-        os.replace(binary + ".tmp", binary)
+        os.replace("%s.tmp.%d" % (binary, os.getpid()), binary)
     if todo and not quiet:
         print("[build] %s: done in %.1fs" % (flavour, time.time() - t0), flush=True)
     return binary
